@@ -30,7 +30,7 @@ _ASYNC = ["Tk_afb_deref", "Tk_afb_deref_mut", "Tk_arf_pre", "Tk_arf_post", "Tk_a
 GEN_SCOPE = {
     "C01": _API + ["ApiSource"], "C03": _API + ["ApiSource"], "C04": _API + _DF + ["ApiSource"],
     "C02": ["Fb_read_frame", "RfSource", "SrcC05", "Transfer"] + _DF, "C05": _DF + ["SrcC05"], "C06": ["Fb_read_frame", "RfSource", "SrcC06"] + _DF,
-    "C07": ["Fb_read_frame", "Fb_io_read", "Ad_chain_read", "Ad_take_read"] + _DF + _ASYNC + _AAD_R + ["Tk_afb_poll_read"],
+    "C07": ["Fb_read_frame", "Fb_io_read", "Ad_chain_read", "Ad_take_read", "SrcC07"] + _DF + _ASYNC + _AAD_R + ["Tk_afb_poll_read"],
     "C08": ["Ad_chain_read", "SrcC08"], "C09": ["Ad_take_read", "SrcC09"],
     "C10": ["Fb_deframe", "Fb_mem_", "SrcC10"] + _DF, "C11": ["Fb_try_parse", "SrcC11"] + _READS,
     "C12": ["Fb_read_frame", "Fb_copy_once_from", "SrcC12"],
